@@ -230,6 +230,27 @@ def main(argv):
         R.undecided("ENGINE", "engine|unmodelled-call|%s" % k,
                     "the code analysed for this property calls %s, for which the interpreter has no contract (reached from %s): "
                     "its effect is opaque, the rule cannot be decided" % (k, ", ".join(sorted(v)[:3])))
+    # every rule that has instances on the pinned tree (spec/rule_inventory.json) must still find at least one: a rule
+    # that selects its sites by some pattern and finds none would otherwise pass vacuously
+    by_rule = {}
+    for o in R.obligations:
+        by_rule[o["rule"]] = by_rule.get(o["rule"], 0) + 1
+    try:
+        with open(os.path.join(VERIF, "spec", "rule_inventory.json")) as fh:
+            inventory = json.load(fh).get(prop, {}).get(tier, {})
+    except (OSError, ValueError):
+        inventory = None
+    if inventory is None or (not inventory and not os.environ.get("VERIF_WRITE_INVENTORY")):
+        R.undecided("FLOOR", "floor|rule-inventory", "spec/rule_inventory.json has no entry for %s/%s" % (prop, tier))
+    elif not any(v["rule"] == "ENGINE" for v in R.violations):
+        for rule, n in sorted(inventory.items()):
+            if n >= 1 and by_rule.get(rule, 0) == 0:
+                R.undecided("FLOOR", "floor|rule|%s" % rule,
+                            "rule %s has %d instance(s) on the pinned tree and none here: the construct it examines is gone or "
+                            "no longer recognised, so the clause it decides is not covered" % (rule, n))
+    if os.environ.get("VERIF_WRITE_INVENTORY"):
+        with open(os.environ["VERIF_WRITE_INVENTORY"], "a") as fh:
+            fh.write(json.dumps({"prop": prop, "tier": tier, "rules": by_rule}) + "\n")
     known, fixed = load_known()
     ev_dir = os.environ.get("VERIF_EVIDENCE_DIR") or os.path.join(VERIF, "evidence")
     rp_dir = os.path.join(os.path.dirname(ev_dir), "replay") if os.environ.get("VERIF_EVIDENCE_DIR") else os.path.join(VERIF, "replay")
